@@ -4843,8 +4843,11 @@ fn name_change(original: &str) -> String {
                 let num_start = paren_pos + 2; // Skip " ("
                                                // Try to parse the number between parentheses
                 if let Ok(number) = first_part[num_start..absolute_end_pos].parse::<u32>() {
-                    let base_name = &first_part[..paren_pos];
-                    new_name = format!("{} ({})", base_name, number + 1)
+                    // if the number cannot grow any more, append a new suffix instead.
+                    if let Some(next_number) = number.checked_add(1) {
+                        let base_name = &first_part[..paren_pos];
+                        new_name = format!("{} ({})", base_name, next_number)
+                    }
                 }
             }
         }
@@ -4873,8 +4876,11 @@ fn hostname_change(original: &str) -> String {
     if let Some(hyphen_pos) = first_part.rfind('-') {
         // Try to parse everything after the hyphen as a number
         if let Ok(number) = first_part[hyphen_pos + 1..].parse::<u32>() {
-            let base_name = &first_part[..hyphen_pos];
-            new_name = format!("{}-{}", base_name, number + 1);
+            // if the number cannot grow any more, append a new suffix instead.
+            if let Some(next_number) = number.checked_add(1) {
+                let base_name = &first_part[..hyphen_pos];
+                new_name = format!("{}-{}", base_name, next_number);
+            }
         }
     }
 
